@@ -42,6 +42,14 @@ fn roundtrip(rng: &mut Rng, ctx: &mut Ctx) {
     let message = match rng.below(6) {
         0 => String::new(),
         1 => "%".repeat(rng.urange(1, 4)),
+        2 => {
+            // all-ASCII text that already looks percent-encoded
+            let mut m = String::new();
+            for _ in 0..rng.urange(1, 4) {
+                m.push_str(*rng.pick(&["a%2Fb", "100%25", "%41", "50%2", "%zz", "%20c", " x ", "%e4%b8%ad", "%%41"]));
+            }
+            m
+        }
         _ => rng.unicode(40),
     };
     let details = gen_details(rng);
